@@ -29,7 +29,7 @@ pub struct Layout {
 
 pub fn layout(b: &[u8]) -> Layout {
     let s = if b.len() > 30 && b[26] == 4 { 4096 } else { 512 };
-    let nsec = (b.len() + s - 1) / s - 1;
+    let nsec = ((b.len() + s - 1) / s).saturating_sub(1);
     let mut fat_sectors = Vec::new();
     for i in 0..109 {
         let v = rd32(b, 76 + 4 * i) as usize;
